@@ -112,7 +112,10 @@ impl Frame {
                 Ok(Frame::Cancel(Cancel::from(crs)))
             }
             None => {
-                // To skip unknown message
+                // To skip unknown message (only when it is complete, otherwise wait for the rest)
+                if available_data < MSG_LEN_SIZE + length {
+                    return Err(Error::Incomplete("Unknown message"));
+                }
                 crs.set_position((MSG_LEN_SIZE + length) as u64);
                 Err(Error::UnknownId(msg_id))
             }
